@@ -61,6 +61,8 @@ type Check struct {
 	Workers int
 	// WorkerTimeout for a worker process
 	WorkerTimeout func(tier string) time.Duration
+	// Post inspects the summed counters of all cases; it returns reasons why the run is inconclusive (coverage not reached)
+	Post func(tier string, counters map[string]int) []string
 }
 
 // Outcome of a custom check
@@ -206,6 +208,9 @@ func RunCheck(id, tier string, base int64) int {
 	for _, f := range crashFindings {
 		addFinding(f, -1, nil)
 	}
+	if c.Post != nil {
+		inconclusive = append(inconclusive, c.Post(tier, extra)...)
+	}
 	known := report.LoadKnown()
 	nviol := 0
 	var knownSeen, violSigs []string
@@ -315,9 +320,23 @@ func spawnWorkers(c *Check, tier string, base int64) (results []*CaseResult, inc
 			ef, _ := os.Create(errf)
 			cmd.Stdout = ef
 			cmd.Stderr = ef
-			cmd.Env = append(os.Environ(), "GORACE=halt_on_error=1 exitcode=66", "GOTRACEBACK=all")
+			raceLog := filepath.Join(dir, fmt.Sprintf("race-%d", s))
+			if c.Race {
+				// explore with halt_on_error=0 and count report blocks in the log files: exit codes are not trusted
+				cmd.Env = append(os.Environ(), "GORACE=halt_on_error=0 exitcode=0 history_size=5 log_path="+raceLog, "GOTRACEBACK=all")
+			} else {
+				cmd.Env = append(os.Environ(), "GOTRACEBACK=all")
+			}
 			err := cmd.Run()
 			ef.Close()
+			var raceFindings []drv.Finding
+			if c.Race {
+				files, _ := filepath.Glob(raceLog + ".*")
+				for _, rf := range files {
+					b, _ := os.ReadFile(rf)
+					raceFindings = append(raceFindings, parseRaceReports(c.ID, string(b))...)
+				}
+			}
 			var rs []*CaseResult
 			if f, e := os.Open(out); e == nil {
 				dec := json.NewDecoder(f)
@@ -333,6 +352,7 @@ func spawnWorkers(c *Check, tier string, base int64) (results []*CaseResult, inc
 			mu.Lock()
 			defer mu.Unlock()
 			results = append(results, rs...)
+			crash = append(crash, raceFindings...)
 			if err != nil {
 				prog, _ := os.ReadFile(out + ".progress")
 				stderr, _ := os.ReadFile(errf)
@@ -421,4 +441,56 @@ func histCase(c *CaseCtx, o drv.HistOpts, sampleEvery int) *CaseResult {
 	}
 	res.Extra = map[string]int{"ops": h.Ops, "jobs": h.Jobs}
 	return res
+}
+
+// parseRaceReports splits a race detector log into report blocks and derives one signature per distinct pair of
+// innermost prunner frames of the two conflicting accesses (line numbers stripped)
+func parseRaceReports(prop, log string) []drv.Finding {
+	var out []drv.Finding
+	blocks := strings.Split(log, "WARNING: DATA RACE")
+	for _, b := range blocks[1:] {
+		if i := strings.Index(b, "=================="); i >= 0 {
+			b = b[:i]
+		}
+		// sections: first access, "Previous ..." access; stop at "Goroutine ... created at"
+		sections := strings.Split(b, "\n\n")
+		var frames []string
+		for _, sec := range sections {
+			head := strings.TrimSpace(sec)
+			if !(strings.HasPrefix(head, "Read at") || strings.HasPrefix(head, "Write at") || strings.HasPrefix(head, "Previous")) {
+				continue
+			}
+			fr := "?"
+			for _, l := range strings.Split(sec, "\n") {
+				l = strings.TrimSpace(l)
+				if strings.HasPrefix(l, "github.com/Flowpack/prunner") {
+					if j := strings.LastIndex(l, "("); j > 0 {
+						l = l[:j]
+					}
+					fr = strings.TrimPrefix(l, "github.com/Flowpack/prunner")
+					break
+				}
+			}
+			frames = append(frames, fr)
+		}
+		if len(frames) == 0 {
+			frames = []string{"?"}
+		}
+		sort.Strings(frames)
+		inPrunner := false
+		for _, f := range frames {
+			if f != "?" {
+				inPrunner = true
+			}
+		}
+		if !inPrunner && !strings.Contains(b, "github.com/Flowpack/prunner") {
+			continue // a race entirely inside the harness would be a harness bug; it is reported as inconclusive elsewhere
+		}
+		detail := b
+		if len(detail) > 3500 {
+			detail = detail[:3500] + "..."
+		}
+		out = append(out, drv.Finding{Props: []string{prop, "C13"}, Sig: "C13:race:" + strings.Join(frames, "|"), Detail: "data race reported by the Go race detector:" + detail, Step: -1})
+	}
+	return out
 }
